@@ -8,6 +8,7 @@ package main
 // constant, or term by term.  No path enumeration, no solver.
 
 import (
+	"os"
 	"fmt"
 	"go/token"
 	"go/types"
@@ -44,14 +45,24 @@ type univFact struct {
 }
 
 type GuardCtx struct {
-	P     *Prog
-	Fn    *ssa.Function
-	PC    *PolyCtx
-	loops []*RangeLoop
-	memo  map[*ssa.BasicBlock][]Fact
-	univ  []univFact
-	uDone bool
-	Inv   *LenInvariants
+	P       *Prog
+	Fn      *ssa.Function
+	PC      *PolyCtx
+	loops   []*RangeLoop
+	memo    map[*ssa.BasicBlock][]Fact
+	univ    []univFact
+	uDone   bool
+	Inv     *LenInvariants
+	extra   []Fact // edge conditions while proving a phi operand
+	opDepth int
+	pinv    []phiInv
+	pDone   bool
+}
+
+// phiInv: at every entry of the loop header, len(slice phi) - int phi == c.
+type phiInv struct {
+	Header *ssa.BasicBlock
+	F      Fact
 }
 
 func NewGuardCtx(p *Prog, fn *ssa.Function, inv *LenInvariants) *GuardCtx {
@@ -416,6 +427,43 @@ func (g *GuardCtx) intrinsic(p Poly, at *ssa.BasicBlock) []Fact {
 	return out
 }
 
+// opFacts: facts about operator symbols: max(a,b) >= a, b; min(a,b) <= a, b; for a >= 0 and
+// b > 0 (both provable here): 0 <= a/b <= a and 0 <= a%b <= a, a%b < b.
+func (g *GuardCtx) opFacts(p Poly, at ssa.Instruction, depth int) []Fact {
+	var out []Fact
+	if depth > 1 {
+		return nil
+	}
+	for _, s := range p.Symbols() {
+		args := g.PC.opArgs[s]
+		if args == nil {
+			continue
+		}
+		sym := polySym(s)
+		switch {
+		case strings.HasPrefix(s, "max("):
+			for _, a := range args {
+				out = append(out, Fact{D: sym.Sub(a), Why: "max"})
+			}
+		case strings.HasPrefix(s, "min("):
+			for _, a := range args {
+				out = append(out, Fact{D: a.Sub(sym), Why: "min"})
+			}
+		case (strings.HasPrefix(s, "/(") || strings.HasPrefix(s, "%(")) && len(args) == 2:
+			g.opDepth++
+			ok := g.opDepth <= 1 && g.prove(args[0], false, at, 1) && g.prove(args[1].Sub(polyConst(1)), false, at, 1)
+			g.opDepth--
+			if ok {
+				out = append(out, Fact{D: sym, Why: "quotient/remainder of non-negative by positive"}, Fact{D: args[0].Sub(sym), Why: "quotient/remainder <= dividend"})
+				if strings.HasPrefix(s, "%(") {
+					out = append(out, Fact{D: args[1].Sub(sym).Sub(polyConst(1)), Why: "remainder < divisor"})
+				}
+			}
+		}
+	}
+	return out
+}
+
 // lenInvFacts: equalities len(base.F) == base.G from the derived invariants.
 func (g *GuardCtx) lenInvFacts(p Poly) []Fact {
 	if g.Inv == nil {
@@ -471,6 +519,12 @@ func (g *GuardCtx) lenInvFacts(p Poly) []Fact {
 func (g *GuardCtx) AllFacts(goal Poly, at ssa.Instruction) []Fact {
 	b := at.Block()
 	facts := append([]Fact{}, g.FactsAtBlock(b)...)
+	facts = append(facts, g.extra...)
+	for _, pi := range g.phiInvariants() {
+		if pi.Header == b || pi.Header.Dominates(b) {
+			facts = append(facts, pi.F)
+		}
+	}
 	for _, u := range g.universals() {
 		if g.univValid(u.L, b) {
 			facts = append(facts, u.F)
@@ -485,7 +539,125 @@ func (g *GuardCtx) AllFacts(goal Poly, at ssa.Instruction) []Fact {
 	}
 	facts = append(facts, g.intrinsic(all, b)...)
 	facts = append(facts, g.lenInvFacts(all)...)
+	facts = append(facts, g.parity(facts)...)
+	facts = append(facts, g.opFacts(all, at, 0)...)
 	return facts
+}
+
+// phiInvariants: for a loop header holding a slice phi S and an integer phi N, the relation
+// len(S) - N == c is an invariant when it holds on every incoming edge (checked by
+// polynomial arithmetic: the entry edge gives c, each back edge must preserve it).
+func (g *GuardCtx) phiInvariants() []phiInv {
+	if g.pDone {
+		return g.pinv
+	}
+	g.pDone = true
+	for _, b := range g.Fn.Blocks {
+		var sl, in []*ssa.Phi
+		for _, ins := range b.Instrs {
+			ph, ok := ins.(*ssa.Phi)
+			if !ok {
+				break
+			}
+			if _, isSl := ph.Type().Underlying().(*types.Slice); isSl {
+				sl = append(sl, ph)
+			} else if isIntLike(ph.Type()) && !isTimeTime(ph.Type()) {
+				in = append(in, ph)
+			}
+		}
+		for _, s := range sl {
+			for _, n := range in {
+				var c *int64
+				ok := true
+				for i := range s.Edges {
+					var d Poly
+					// on the edge: len(s.Edges[i]) - n.Edges[i], with the phis themselves as symbols
+					d = g.PC.lenOf(s.Edges[i]).Sub(g.PC.Of(n.Edges[i]))
+					// express relative to the invariant candidate: d - (len(s) - n) must be 0 on back
+					// edges, and a constant on entry edges
+					rel := d.Sub(g.PC.lenOf(s).Sub(g.PC.Of(n)))
+					if os.Getenv("DLINT_DEBUG_PINV") != "" {
+						fmt.Printf("pinv %s: %s/%s edge %d d=%s rel=%s\n", FuncName(g.Fn), s.Name(), n.Name(), i, d, rel)
+					}
+					if rel.IsZero() {
+						continue // preserved
+					}
+					if cv, isC := d.IsConst(); isC {
+						if c != nil && *c != cv {
+							ok = false
+						}
+						c = &cv
+						continue
+					}
+					ok = false
+				}
+				if ok && c != nil {
+					g.pinv = append(g.pinv, phiInv{b, Fact{D: g.PC.lenOf(s).Sub(g.PC.Of(n)).Sub(polyConst(*c)), Eq: true, Why: "loop invariant len(" + s.Name() + ") - " + n.Name() + " (holds on entry, preserved by every back edge)"}})
+				}
+			}
+		}
+	}
+	return g.pinv
+}
+
+// parity: a counting loop variable i = c0, c0+s, c0+2s, ... and a bound B whose symbols all
+// carry coefficients divisible by s: i < B sharpens to i <= B - s + ((B0 - c0) mod s adjusted).
+func (g *GuardCtx) parity(facts []Fact) []Fact {
+	var out []Fact
+	for _, f := range facts {
+		if f.Eq || f.NE {
+			continue
+		}
+		for _, sym := range f.D.Symbols() {
+			if f.D[sym] != -1 {
+				continue
+			}
+			ph, ok := g.PC.symVal[sym].(*ssa.Phi)
+			if !ok || len(ph.Edges) != 2 {
+				continue
+			}
+			var c0, step int64
+			okInd := true
+			haveC := false
+			for _, e := range ph.Edges {
+				if n, isC := constInt(e); isC {
+					c0, haveC = n, true
+					continue
+				}
+				bo, isB := e.(*ssa.BinOp)
+				if !isB || bo.Op != token.ADD || bo.X != ssa.Value(ph) {
+					okInd = false
+					continue
+				}
+				k, isC := constInt(bo.Y)
+				if !isC || k <= 1 {
+					okInd = false
+				}
+				step = k
+			}
+			if !okInd || !haveC || step <= 1 {
+				continue
+			}
+			// f.D = B' - phi where B' = rest; fact says phi <= B'  (B' includes the -1 of a strict bound)
+			rest := f.D.Add(polySym(sym))
+			div := true
+			for mono, co := range rest {
+				if mono != "" && co%step != 0 {
+					div = false
+				}
+			}
+			if !div {
+				continue
+			}
+			k0 := rest[""]
+			// phi ≡ c0 (mod step), phi <= B' with B' ≡ k0 (mod step)  =>  phi <= B' - ((k0 - c0) mod step)
+			r := ((k0-c0)%step + step) % step
+			if r != 0 {
+				out = append(out, Fact{D: f.D.Sub(polyConst(r)), Why: f.Why + " (sharpened by the step of the counting loop)"})
+			}
+		}
+	}
+	return out
 }
 
 func geList(facts []Fact) []Poly {
@@ -576,9 +748,81 @@ func symNonNeg(sym string, ge []Poly) bool {
 // Prove: goal >= 0 at instruction `at`.  Tries the goal as is and with element symbols
 // wildcarded (any element of a validated slice).
 func (g *GuardCtx) Prove(goal Poly, at ssa.Instruction) bool {
+	return g.prove(goal, false, at, 0)
+}
+
+// splitPhi: if the goal mentions a phi (other than loop counters already covered by facts),
+// the goal holds when it holds for each incoming value at the end of the corresponding
+// predecessor, under the condition of that edge (the clamp idiom `if x <= 0 { x = 1 }`).
+func (g *GuardCtx) splitPhi(goal Poly, ne bool, depth int) bool {
+	if depth >= 2 {
+		return false
+	}
+	for _, s := range goal.Symbols() {
+		ph, ok := g.PC.symVal[s].(*ssa.Phi)
+		if !ok || !isIntLike(ph.Type()) {
+			continue
+		}
+		b := ph.Block()
+		all := true
+		for i, e := range ph.Edges {
+			pred := b.Preds[i]
+			sub, _ := substPoly(goal, map[string]Poly{s: g.PC.Of(e)}, nil)
+			if sub.Equal(goal) { // self-reference through the back edge
+				all = false
+				break
+			}
+			term := pred.Instrs[len(pred.Instrs)-1]
+			if !g.proveOnEdge(sub, ne, pred, b, term, depth+1) {
+				all = false
+				break
+			}
+		}
+		if all {
+			return true
+		}
+	}
+	return false
+}
+
+// proveOnEdge proves at the end of pred, adding the condition of the edge pred->succ.
+func (g *GuardCtx) proveOnEdge(goal Poly, ne bool, pred, succ *ssa.BasicBlock, term ssa.Instruction, depth int) bool {
+	var extra []Fact
+	if iff, ok := term.(*ssa.If); ok && pred.Succs[0] != pred.Succs[1] {
+		if pred.Succs[0] == succ {
+			extra = g.condFacts(iff.Cond, true, g.P.InstrPos(iff))
+		} else {
+			extra = g.condFacts(iff.Cond, false, g.P.InstrPos(iff))
+		}
+	}
+	g.extra = append(g.extra, extra...)
+	defer func() { g.extra = g.extra[:len(g.extra)-len(extra)] }()
+	return g.prove(goal, ne, term, depth)
+}
+
+func (g *GuardCtx) prove(goal Poly, ne bool, at ssa.Instruction, depth int) bool {
+	if ne {
+		if c, ok := goal.IsConst(); ok {
+			return c != 0
+		}
+		facts := g.AllFacts(goal, at)
+		for _, f := range facts {
+			if f.NE && (f.D.Equal(goal) || f.D.Equal(goal.Neg())) {
+				return true
+			}
+		}
+		one := polyConst(1)
+		if g.prove(goal.Sub(one), false, at, depth) || g.prove(goal.Neg().Sub(one), false, at, depth) {
+			return true
+		}
+		return g.splitPhi(goal, true, depth)
+	}
 	facts := g.AllFacts(goal, at)
 	ge := geList(facts)
 	if proveGE(goal, ge) {
+		return true
+	}
+	if g.splitPhi(goal, false, depth) {
 		return true
 	}
 	wg := wildPoly(goal)
@@ -596,17 +840,7 @@ func (g *GuardCtx) Prove(goal Poly, at ssa.Instruction) bool {
 
 // ProveNE0: goal != 0.
 func (g *GuardCtx) ProveNE0(goal Poly, at ssa.Instruction) bool {
-	if c, ok := goal.IsConst(); ok {
-		return c != 0
-	}
-	facts := g.AllFacts(goal, at)
-	for _, f := range facts {
-		if f.NE && (f.D.Equal(goal) || f.D.Equal(goal.Neg())) {
-			return true
-		}
-	}
-	one := polyConst(1)
-	return g.Prove(goal.Sub(one), at) || g.Prove(goal.Neg().Sub(one), at)
+	return g.prove(goal, true, at, 0)
 }
 
 // Goals of a sink: the polynomials that must be >= 0 (NE for divisors).
